@@ -18,7 +18,8 @@ import (
 //	CALLCODE, RETURN, DELEGATECALL, CREATE2, STATICCALL, REVERT, INVALID,
 //	SELFDESTRUCT (EIP-6780).
 //
-// Not modelled: precompile execution, EIP-7702 delegated code (Unsupported is set).
+// EIP-7702 (Prague+): calls to an account whose code is a delegation designator run the target's code (one level).
+// Not modelled: precompile execution (Unsupported is set).
 
 var (
 	two256 = new(big.Int).Lsh(big.NewInt(1), 256)
@@ -892,6 +893,10 @@ func (f *frame) opCall(op byte) {
 	inOff, inSize, outOff, outSize := f.pop(), f.pop(), f.pop(), f.pop()
 	mc, nl := f.expansion(inOff, inSize, outOff, outSize)
 	extra := f.accessAccount(to)
+	code, target := vm.resolve(to)
+	if target != nil {
+		extra += f.accessAccount(*target) // EIP-7702: loading the delegated code is another account access
+	}
 	if value.Sign() != 0 {
 		extra += gCallValue
 		if op == 0xf1 && vm.st.acc.dead(to) {
@@ -926,12 +931,8 @@ func (f *frame) opCall(op byte) {
 		f.pushU(0)
 		return
 	}
-	code := vm.st.acc.get(to).Code
 	if isPrecompile(vm.env.Fork, to) {
 		vm.unsupported = "call to a precompile"
-	}
-	if isDelegation(code) {
-		vm.unsupported = "call to a delegated account"
 	}
 	m := &message{codeAddr: to, code: code, data: f.mread(inOff, inSize), gas: childGas, depth: f.m.depth + 1, static: f.m.static}
 	switch op {
